@@ -755,7 +755,21 @@ func (c *Ctx) topAssigns() (locs []Loc, star bool, has bool) {
 	}
 	for _, cl := range c.contract.Clauses {
 		if cl.Kind == "assigns" {
-			has = true
+			// a frame tagged for particular properties ("assigns[C20] ...") is an obligation of
+			// those properties' checks only
+			// (written "assigns[only:C20] ..."; plain tags are additive: they add the function to
+			// that property's function set, the frame stays an obligation wherever the function is checked)
+			only := false
+			var ts []string
+			for _, t := range cl.Tags {
+				if strings.HasPrefix(t, "only:") {
+					only = true
+					ts = append(ts, t[5:])
+				}
+			}
+			if !only || c.tagSelected(ts) {
+				has = true
+			}
 		}
 	}
 	if !has {
